@@ -81,7 +81,7 @@ package appctx
 //@   ensures [grows-only-within-the-limit] r0 == runtimeRelease || len(r0) <= 128
 //@   ensures [never-shrinks] len(r0) >= len(runtimeRelease)
 //@   ensures [appended-form-ends-with-a-bracket] r0 != runtimeRelease ==> hassuffix(r0, ")")
-//@   loop range strings.Fields(lambdaRuntimeFeaturesHeader): invariant numberOfAppendedFeatures == len(lambdaRuntimeFeatures) && 0 <= numberOfAppendedFeatures && availableLength == 128 - runtimeReleaseLength - 3 - totallen(lambdaRuntimeFeatures) && (numberOfAppendedFeatures >= 1 ==> totallen(lambdaRuntimeFeatures) + numberOfAppendedFeatures - 1 <= 128 - runtimeReleaseLength - 3) && runtimeReleaseLength == ite(len(runtimeRelease) == 0, 7, len(runtimeRelease))
+//@   loop range strings.Fields(lambdaRuntimeFeaturesHeader): invariant numberOfAppendedFeatures == len(lambdaRuntimeFeatures) && 0 <= numberOfAppendedFeatures && availableLength == 128 - ite(len(runtimeRelease) == 0, 7, len(runtimeRelease)) - 3 - totallen(lambdaRuntimeFeatures) && (numberOfAppendedFeatures >= 1 ==> totallen(lambdaRuntimeFeatures) + numberOfAppendedFeatures - 1 <= 128 - ite(len(runtimeRelease) == 0, 7, len(runtimeRelease)) - 3)
 
 // the stored identity: absent counts as empty; whatever is stored under the key is a string (only these functions store there)
 //@ spec releaseStored(c ApplicationContext) bool = has(ctxOf(c).m, AppCtxRuntimeReleaseKey)
